@@ -284,6 +284,12 @@ func runErr(r *Rng, n int, layer string, model bool, mk func() (hackpadfs.FS, fu
 			if layer == "mount" && (o.Kind == "remove" || o.Kind == "removeall") && (o.P == "." || o.P == "a" || o.P == "ab" || o.P == "ab/b") {
 				continue // removing a mount point or a directory that holds one: C03's finding, C06's business
 			}
+			if layer != "" && o.P != "" && r.Intn(8) == 0 {
+				// an invalid spelling of the name (through the layers only): every layer, like os.FS, answers ErrInvalid
+				// in a *PathError naming the argument -- also where the spelling "resolves" to something that exists
+				// (a mount point or the view's base with a trailing slash or dot)
+				o.P = []string{o.P + "/", o.P + "/.", "./" + o.P, o.P + "//x", "/" + o.P}[r.Intn(5)]
+			}
 			a := impl.Apply(o)
 			as := Snapshot(implFS, cands)
 			opsC = append(opsC, o.coq())
